@@ -148,6 +148,7 @@ deriving Repr, Inhabited
 structure Sys where
   store : Store.St
   pub : Pub
+  savepoint : Option Nat := none   -- the job's configuration: started with the savepoint URI of this checkpoint id
 deriving Repr, Inhabited
 
 /-- a new `Store` running `LoadCheckpoint` on storage content `files` -/
@@ -165,6 +166,10 @@ def bootSavepoint (id : Nat) (files written delivered : List Nat) (initial : Lis
   { store := Store.loadFromSavepoint id (maxL files),
     pub := { files, completed := [id], inflight := [], removes := [], notifs := [], written, delivered,
              initial, finished } }
+
+/-- a job configured with the savepoint URI of checkpoint `k` starts on storage holding the snapshot files `files0` -/
+def initSavepoint (k : Nat) (files0 : List Nat) : Sys :=
+  { bootSavepoint k files0 files0 [] files0 [] with savepoint := some k }
 
 /-- the job starts on storage that already holds the snapshot files `files0` -/
 def init (files0 : List Nat) : Sys := boot files0 files0 [] files0 []
@@ -236,9 +241,9 @@ def step (s : Sys) : Act → Option (Sys × List Obs)
     match fin with
     | none => some ({ s with store := st' }, [.res r])
     | some snap =>
-      some ({ store := st', pub := { s.pub with inflight := s.pub.inflight ++ [(snap.id, false)],
-                                                finished := s.pub.finished ++ [snap] } },
-            [.res r, .finished snap])
+      let pub' : Pub := { s.pub with inflight := s.pub.inflight ++ [(snap.id, false)],
+                                     finished := s.pub.finished ++ [snap] }
+      some ({ s with store := st', pub := pub' }, [.res r, .finished snap])
   | .write n =>
     if (n, false) ∈ s.pub.inflight then
       some ({ s with pub := { s.pub with
@@ -258,7 +263,14 @@ def step (s : Sys) : Act → Option (Sys × List Obs)
     else none
   | .deliver => deliverAt s 0
   | .crash =>
-    some (boot s.pub.files s.pub.written s.pub.delivered s.pub.initial s.pub.finished s.pub.fifo, [.loaded (load s.pub.files)])
+    match s.savepoint with
+    | none =>
+      some (boot s.pub.files s.pub.written s.pub.delivered s.pub.initial s.pub.finished s.pub.fifo, [.loaded (load s.pub.files)])
+    | some k =>
+      -- a job configured with a savepoint URI keeps it: every restart takes the savepoint path of
+      -- `LoadCheckpoint` again ("for now let savepoint always override using local checkpoints", D64)
+      some ({ bootSavepoint k s.pub.files s.pub.written s.pub.delivered s.pub.initial s.pub.finished with savepoint := some k },
+            [.loaded (some k)])
 
 def run : Sys → List Act → Option (Sys × List Obs)
   | s, [] => some (s, [])
